@@ -125,15 +125,18 @@ def record_of(rid, case, o):
 
 def _work_any(job):
     """One pool for everything: ("enum", case, seed) or ("rand", x, y, ed, at, seed)."""
+    import json
     if job[0] == "enum":
-        return _work(job[1:])
-    return _observe_random(job[1:])
+        return json.dumps(_work(job[1:]))
+    return json.dumps(_observe_random(job[1:]))
 
 
 def absorb(ctx, jobs, results, report=True):
     """Returns (triples of the enumerated pairs with the Python verdict, triples of random pairs for TLC alone)."""
+    import json
     enum, rnd = [], []
     for job, res in zip(jobs, results):
+        res = json.loads(res)
         if job[0] == "rand":
             case, o = res
             if "skip" in o:
